@@ -903,6 +903,10 @@ func (x *Exec) runLoopInv(fr *Frame, L *Loop, ins []edge, spec *LoopSpec) []edge
 		}
 	}
 	st.clk = x.advanceClk(st)
+	// whatever the loop-carried variables refer to exists at the loop head
+	for _, p := range phis {
+		x.assumeExisting(st, st.regs[p], p.Type())
+	}
 	// 3b. loop frame inherited from the function's modifies clause
 	type lf struct {
 		name     string
@@ -910,7 +914,8 @@ func (x *Exec) runLoopInv(fr *Frame, L *Loop, ins []edge, spec *LoopSpec) []edge
 	}
 	var lframes []lf
 	var allowedAt func(name string, p *Term) []*Term
-	if fr.depth == 0 && fr.con != nil && fr.con.HasModifies && !fr.con.ModAll {
+	if fr.depth == 0 && fr.con != nil && fr.con.HasModifies && !fr.con.ModAll && fr.con.Effects != "validation" {
+		// (under the validation-effects discipline the loop head is abstracted by loopMix instead)
 		env0 := x.contractEnv(fr, fr.entry, fr.entry, nil)
 		allowed := map[string][]*Term{}
 		wholeOK := map[string]bool{}
